@@ -507,6 +507,9 @@ func RunTrace(env *Env, cfg TraceCfg, rng *rand.Rand, txs int, emit func(map[str
 	t := &tracer{env: env, cfg: cfg, rng: rng, r: &Runner{Env: env}}
 	t.cur = t.live()
 	out := func(m map[string]any) {
+		if m["evs"] == nil {
+			m["evs"], m["txc"] = []any{}, 0
+		}
 		lines++
 		t.cur = m["db"].(map[string]any)
 		emit(m)
@@ -522,6 +525,7 @@ func RunTrace(env *Env, cfg TraceCfg, rng *rand.Rand, txs int, emit func(map[str
 		callerErr := rng.Intn(12) == 0
 		var failed map[string]any
 		var harness error
+		env.ResetObs()
 		txErr := env.Db.Update(mctx, func(ctx boltz.MutateContext) error {
 			for k := 0; k < nops; k++ {
 				op, a := t.call()
@@ -546,25 +550,35 @@ func RunTrace(env *Env, cfg TraceCfg, rng *rand.Rand, txs int, emit func(map[str
 			return lines, harness
 		}
 		after := t.live()
+		// what the (synchronous, typed) listeners were handed, and how often the tx-complete listener ran
+		obs := env.snapshotObs()
+		evs := []any{}
+		for _, e := range obs.Log["typed"] {
+			evs = append(evs, e)
+		}
+		ended := func(m map[string]any) map[string]any {
+			m["evs"], m["txc"] = evs, obs.Txc
+			return m
+		}
 		switch {
 		case failed != nil:
 			if txErr == nil {
 				failed["cls"] = "lost:" + fmt.Sprint(failed["cls"]) // the body returned an error, Update returned nil
 			}
 			failed["db"] = after
-			out(failed)
+			out(ended(failed))
 		case callerErr:
 			cls := "caller"
 			if txErr == nil {
 				cls = "lost:caller"
 			}
-			out(map[string]any{"op": "callerError", "a": map[string]any{"k": 0}, "res": "fail", "cls": cls, "ret": "", "db": after})
+			out(ended(map[string]any{"op": "callerError", "a": map[string]any{"k": 0}, "res": "fail", "cls": cls, "ret": "", "db": after}))
 		default:
 			res, cls := "ok", ""
 			if txErr != nil {
 				res, cls = "fail", Classify(txErr)
 			}
-			out(map[string]any{"op": "commit", "a": map[string]any{"k": 0}, "res": res, "cls": cls, "ret": "", "db": after})
+			out(ended(map[string]any{"op": "commit", "a": map[string]any{"k": 0}, "res": res, "cls": cls, "ret": "", "db": after}))
 		}
 	}
 	return lines, nil
